@@ -1139,6 +1139,20 @@ func (w *worker) runCombine(ctx context.Context, task *Task, taskStats *stats.Ma
 	defer func() {
 		w.mu.Lock()
 		w.combinerStates[combineKey]--
+		if err != nil && task.CombineKey == "" && w.combinerStates[combineKey] == combinerIdle {
+			// This attempt failed part-way: some of its input may already
+			// have been combined into the task's buffers. Drop them, so
+			// that the next attempt to run the task starts from scratch
+			// instead of counting those records a second time. (Shared,
+			// per-machine combiners cannot be rolled back this way.)
+			for _, c := range w.combiners[combineKey] {
+				if discardErr := (<-c).Discard(); discardErr != nil {
+					log.Error.Printf("error discarding combiner: %v", discardErr)
+				}
+			}
+			delete(w.combiners, combineKey)
+			w.combinerStates[combineKey] = combinerNone
+		}
 		w.mu.Unlock()
 		if err == nil && task.CombineKey == "" {
 			taskWriteDuration := taskStats.Int("writeDuration")
